@@ -34,6 +34,7 @@ def run(ctx, crate):
     rule_removal_keeps_screen_current(ctx, crate)
     rule_readd_noop(ctx, crate)
     rule_unlink_frees_slot(ctx, crate)
+    rule_multi_draw_total(ctx, crate)
     D.rule_render_unless_hidden(ctx, crate)
     D.rule_finished_draws_forced(ctx, crate)
     D.rule_rows_newtype(ctx, crate)
@@ -201,14 +202,47 @@ def rule_insert_arms(ctx, crate, rule="R-MULTI-INSERT-ARMS"):
             continue
         mem_calls = [c for c, k in uses_of_field_ref(b, "members", include_forward=True) if c.bb in reg and k == 0]
         if vs == {"Some"}:
-            ok = any(c.matches(r"std::ops::IndexMut::index_mut") for c in mem_calls) and \
-                any(i in reg and s["lhs"]["p"] == ["*"] and b.slice_rv(i, s).has_call(r"std::default::Default::default") for i, j, s in b.assigns())
-            ctx.check(ok, rule, "alloc:reset-reused", b.name, K.fn_loc(b), "a reused slot is reset to MultiStateMember::default()",
-                      "a recycled slot keeps the previous bar's draw state / zombie flag", cfg)
+            ok = insert_resets_reused(crate)
+            if not ok:
+                # ... or every slot was already reset, as a whole, when it entered the free set (the reset here is then redundant)
+                ok = freed_slots_are_reset(crate)
+            ctx.check(ok, rule, "alloc:reset-reused", b.name, K.fn_loc(b), "a reused slot is a default MultiStateMember (reset here, or when it was freed)",
+                      "a recycled slot keeps the previous bar's draw state / zombie flag: neither insert() nor the function that frees a slot resets the whole member", cfg)
         elif vs == {"None"}:
             ok = any(c.matches(r"std::vec::Vec::<T, A>::push") for c in mem_calls)
             ctx.check(ok, rule, "alloc:push-fresh", b.name, K.fn_loc(b), "a fresh slot is pushed when no free slot exists",
                       "no fresh slot is pushed when the free set is empty", cfg)
+
+
+def insert_resets_reused(crate):
+    """`MultiState::insert` stores a default member into the slot it takes from `free_set` (on the Some edge of the pop)."""
+    b = crate.body("multi::MultiState::insert")
+    if not b:
+        return False
+    for vs, reg, sb, pl in K.variant_regions(b, crate, "std::option::Option"):
+        if vs != {"Some"} or not b.slice(pl, at=sb).has_call(r"std::vec::Vec::<T, A>::pop"):
+            continue
+        mem_calls = [c for c, k in uses_of_field_ref(b, "members", include_forward=True) if c.bb in reg and k == 0]
+        if any(c.matches(r"std::ops::IndexMut::index_mut") for c in mem_calls) and \
+                any(i in reg and s["lhs"]["p"] == ["*"] and b.slice_rv(i, s).has_call(r"std::default::Default::default") for i, j, s in b.assigns()):
+            return True
+    return False
+
+
+def freed_slots_are_reset(crate):
+    """Every function that pushes onto `free_set` stores a whole default member into `members[..]` on every path to the push."""
+    pushers = 0
+    for b in K.lib_bodies(crate):
+        push = [c for c, k in uses_of_field_ref(b, "free_set") if c.matches(r"std::vec::Vec::<T, A>::push") and k == 0]
+        if not push:
+            continue
+        pushers += 1
+        reset = [i for i, j, s in b.assigns() if s["lhs"]["p"] == ["*"] and b.locals[s["lhs"]["l"]].get("head") == "multi::MultiStateMember"
+                 and b.slice_rv(i, s).has_call(r"std::default::Default::default")]
+        for c in push:
+            if not reset or c.bb in b.reach([0], avoid=reset):
+                return False
+    return pushers > 0
 
 
 def rule_remove_idx(ctx, crate, rule="R-MULTI-REMOVE"):
@@ -238,6 +272,8 @@ def rule_remove_idx(ctx, crate, rule="R-MULTI-REMOVE"):
     avoid = guard_true
     for what, sites in (("free_set.push(idx)", [c.bb for c in push]), ("ordering.retain(!= idx)", [c.bb for c in ret]), ("members[idx] = default", [i for i, s in reset])):
         ok = bool(sites) and not (b.reach([0], avoid=sites, avoid_edges=avoid) & set(b.return_blocks()))
+        if not ok and what.startswith("members"):
+            ok = insert_resets_reused(crate)       # the member is reset when its slot is handed out again instead: equivalent, a freed slot is in no ordering
         ctx.check(ok, rule, "effect:%s" % what.split("(")[0].split(" ")[0], b.name, K.fn_loc(b), "every non-early path performs %s" % what,
                   "remove_idx can return without %s" % what, cfg)
     for c in push:
@@ -530,3 +566,55 @@ def rule_unlink_frees_slot(ctx, crate, rule="R-UNLINK-FREES-SLOT"):
                       "the old target is disconnected (its slot freed) before the bar's draw target is replaced",
                       "%s replaces the bar's draw target without disconnecting the old one: a member's slot stays behind" % K.meth(b.name), cfg)
     ctx.floor(rule, n, 3, cfg, "disconnect + stores that replace BarState::draw_target")
+
+
+def rule_multi_draw_total(ctx, crate, rule="R-MULTI-DRAW-TOTAL"):
+    """"Removing, clearing or dropping a bar makes its lines disappear": `MultiProgress::remove`, `ProgressDrawTarget::disconnect`
+    (set_draw_target, add to another MultiProgress) and the reaping of zombies all change the member list and then rely on
+    `MultiState::draw(true, ..)` to repaint the region - also when the list has become *empty* (the frame to paint is then the empty
+    frame that erases the last bar). So `MultiState::draw` must reach `Drawable::draw` on every path; the only exits that paint
+    nothing are the documented ones: `panicking()`, a target without a width (hidden) and a refused drawable (hidden / rate limited).
+    An early return for a "degenerate" state (no members, nothing to print) leaves the departed bar's lines on the terminal."""
+    cfg = crate.config
+    d = K.find_one(ctx, crate, rule, r"multi::MultiState::draw")
+    if not d:
+        return
+    paints = [c.bb for c in d.calls(r"draw_target::Drawable::<'_>::draw")]
+    if not paints:
+        ctx.lost(rule, cfg, "MultiState::draw no longer calls Drawable::draw")
+        return
+    exempt, why = set(), {}
+    for sb, t in d.switches():
+        if any(sl.has_call(r"std::thread::panicking") for sl in K.cond_slices(d, sb)):
+            zero = [tb for v, tb in t["targets"] if v == 0]
+            exempt.add((sb, t["otherwise"]))
+            why[(sb, t["otherwise"])] = "panicking"
+    for sb, t, pl, dd in K.discr_switches(d):
+        if K.head_of_type(pl.get("ty", "")) != "std::option::Option":
+            continue
+        sl = d.slice({"k": "copy", "place": {"l": pl["l"], "p": []}}, through_calls=False)
+        if sl.has_call(K.PDT_DRAWABLE) or sl.has_call(r"multi::MultiState::width", r"draw_target::ProgressDrawTarget::width"):
+            for tgt, vs in K.edge_variants(crate, t, "std::option::Option").items():
+                if vs == {"None"}:
+                    exempt.add((sb, tgt))
+    err = set()
+    for k_ in d.calls(K.TRY_BRANCH):
+        te = K.try_edges(d, k_)
+        if te:
+            err.add((te[0], te[2]))
+    leak = d.reach([0], avoid=paints, avoid_edges=exempt | err) & set(d.return_blocks())
+    wit = []
+    if leak:
+        # name the tests whose edges lead to a return without painting
+        R0 = d.reach([0], avoid=paints, avoid_edges=exempt | err)
+        for sb, t in d.switches():
+            if sb in R0:
+                for x in d.succ(sb):
+                    if (sb, x) not in exempt and (d.reach([x], avoid=paints, avoid_edges=exempt | err) & set(d.return_blocks())) and \
+                            not (set(d.reach([y for y in d.succ(sb) if y != x], avoid=paints, avoid_edges=exempt | err)) & set(d.return_blocks())):
+                        wit.append("test at line %d" % t.get("line", 0))
+    ctx.check(not leak, rule, "paints-unless-hidden", d.name, K.fn_loc(d),
+              "MultiState::draw reaches Drawable::draw on every path except panicking() / no width / refused drawable (%d exempt edges)" % len(exempt),
+              "MultiState::draw can return without painting for a reason other than panicking / a hidden target / a refused drawable (%s): remove() and "
+              "set_draw_target() rely on this draw to erase the departed bar - with an early return for \"no members, nothing to print\" the last member's lines "
+              "stay on the terminal" % (", ".join(sorted(set(wit))) or "early return"), cfg, witness=wit)
